@@ -38,7 +38,7 @@ fn main() {
     panic::set_hook(Box::new(|_| {}));
     match args[1].as_str() {
         "list" => {
-            for (n, _) in incan_verif_kani::registry() {
+            for (n, _, _) in incan_verif_kani::registry() {
                 println!("{n}");
             }
         }
@@ -46,7 +46,7 @@ fn main() {
             let name = &args[2];
             let vals = parse_vals(args.get(3).map(|s| s.as_str()).unwrap_or(""));
             let reg = incan_verif_kani::registry();
-            let Some((_, f)) = reg.iter().find(|(n, _)| n == name) else {
+            let Some((_, f, _)) = reg.iter().find(|(n, _, _)| n == name) else {
                 eprintln!("unknown harness {name}");
                 std::process::exit(2);
             };
@@ -67,7 +67,38 @@ fn main() {
                 }
             }
         }
+        "search" => {
+            // replay search <harness> <seed> <iterations>: look for a reproducing input of a failure the solver established
+            let name = &args[2];
+            let seed: u64 = args.get(3).and_then(|s| s.parse().ok()).unwrap_or(1);
+            let iters: u64 = args.get(4).and_then(|s| s.parse().ok()).unwrap_or(1_000_000);
+            let reg = incan_verif_kani::registry();
+            let Some((_, _, f)) = reg.iter().find(|(n, _, _)| n == name) else {
+                eprintln!("unknown harness {name}");
+                std::process::exit(2);
+            };
+            let mut valid = 0u64;
+            for i in 0..iters {
+                let mut nd = incan_verif_kani::nd::RandNd::new(seed.wrapping_add(i));
+                let r = panic::catch_unwind(panic::AssertUnwindSafe(|| f(&mut nd)));
+                match r {
+                    Ok(()) => valid += 1,
+                    Err(p) => {
+                        if p.downcast_ref::<AssumptionViolated>().is_some() {
+                            continue;
+                        }
+                        let hex: Vec<String> = nd.drawn.iter().map(|v| v.iter().map(|b| format!("{b:02x}")).collect()).collect();
+                        println!("FOUND harness={name} after={} valid={} draws={} failure={:?}", i + 1, valid, hex.join(","), payload_msg(&p));
+                        std::process::exit(1);
+                    }
+                }
+            }
+            println!("NOTFOUND harness={name} tried={iters} valid={valid}");
+            std::process::exit(0);
+        }
         "num" => incan_verif_kani::numreplay::main(&args[2..]),
+        #[cfg(feature = "compiler")]
+        "emitrust" => incan_verif_kani::tcreplay::emit_main(&args[2..]),
         #[cfg(feature = "compiler")]
         "typecheck" => incan_verif_kani::tcreplay::main(&args[2..]),
         #[cfg(feature = "compiler")]
